@@ -38,6 +38,8 @@ def gen_world(rng, prop, long_dim=False):
         else:
             items = [f"{letter}{j}x" for j in range(ln)]
             dt = "str" if kind == "str" else None
+        if len(items) >= 2 and rng.chance(0.4):
+            items = rng.shuffled(items)  # items are labels: their order in the dimension need not be ascending
         dims.append({"letter": letter, "name": NAMES[letter], "items": items, "dtype": dt})
     if long_dim:
         n_long = rng.randint(33000, 40000)
@@ -530,7 +532,8 @@ class IoChan(Engine):
         finally:
             shutil.rmtree(tmp, ignore_errors=True)
         return {"violation": violation, "digest": st.log.digest(), "steps": 1 + len(run["ops"]), "faults": st.faults, "probes": st.probes,
-                "clauses": st.clauses, "sig": jhash(st.sig), "nontrivial": bool(sum(st.clauses.values()) > 0), "states": []}
+                "clauses": st.clauses, "sig": jhash(st.sig), "nontrivial": bool(sum(st.clauses.values()) > 0),
+                "states": [jhash([x for x in st.sig if isinstance(x, tuple)])]}
 
     def _cnt(self, st, c):
         st.clauses[c] = st.clauses.get(c, 0) + 1
